@@ -588,7 +588,8 @@ func (c *UDPConn) ReadFrom(b []byte) (int, net.Addr, error) {
 type writeUDPOp struct {
 	s    *UDPSock
 	dst  *net.UDPAddr
-	data []byte
+	src  []byte // the caller's buffer
+	data []byte // its content when the operation is performed
 	g    string
 	err  error
 }
@@ -596,6 +597,7 @@ type writeUDPOp struct {
 func (o *writeUDPOp) Ready() bool { return true }
 func (o *writeUDPOp) Do() {
 	n := o.s.n
+	o.data = cloneBytes(o.src)
 	if o.s.closed {
 		o.err = &net.OpError{Op: "write", Net: "udp", Err: net.ErrClosed}
 		n.event("udp-write-closed", o.s.Local.String(), o.dst.String(), 0, "")
@@ -682,7 +684,10 @@ func (c *UDPConn) writeTo(b []byte, addr *net.UDPAddr) (int, error) {
 	if len(b) > 0 {
 		simrt.RaceReadRange(unsafe.Pointer(&b[0]), len(b))
 	}
-	op := &writeUDPOp{s: c.s, dst: &net.UDPAddr{IP: cloneIP(addr.IP), Port: addr.Port}, data: cloneBytes(b), g: name}
+	// The bytes are taken when the operation is performed, not when the caller traps: like a system call, the send reads
+	// the caller's buffer at the moment it happens. A caller that lets somebody else write to that buffer before its
+	// send has happened (a shared encode buffer whose lock is released too early) sends what is in it then.
+	op := &writeUDPOp{s: c.s, dst: &net.UDPAddr{IP: cloneIP(addr.IP), Port: addr.Port}, src: b, g: name}
 	simrt.Trap(op, true)
 	if op.err != nil {
 		return 0, cloneErr(op.err)
